@@ -220,21 +220,25 @@ fn pow10(k: u32) -> u32 {
     r
 }
 
-/// For every calendar reading and every precision 0..=9 (and none): the formatted text has
-/// the documented shape, fixed width 20 / 21+p, and parsing it hands back exactly the same
-/// parts with the fraction truncated to the precision.
+fn fmt_with_prec<const N: usize>(w: &mut Buf<N>, prec: usize) -> core::fmt::Result {
+    if prec == 10 { write!(w, "{}", Timestamp::MIN) } else { write!(w, "{:.*}", prec, Timestamp::MIN) }
+}
+
+/// For every calendar reading (full nanosecond range) and every precision 0..=9 and none:
+/// the formatted text has the documented shape and the fixed width 20 / 21+p, the parser accepts
+/// it, and hands back the same date and time-of-day fields.
 #[kani::proof]
 #[kani::unwind(34)]
 #[kani::stub(emit_core::timestamp::Timestamp::from_parts, rec_from_parts)]
 #[kani::stub(emit_core::timestamp::Timestamp::to_parts, stub_to_parts)]
 #[kani::stub(core::str::from_utf8, ascii_from_utf8)]
-pub fn c15_q_ts_fmt_parse_roundtrip() {
+pub fn c15_q_ts_fmt_shape_roundtrip() {
     let p = sym_parts();
     unsafe { STUB_PARTS = p; REC_ACCEPT = true; REC_CALLS = 0; REC_PARTS = None; }
     let prec: usize = kani::any();
     kani::assume(prec <= 10);
     let mut w = Buf::<40>::new();
-    let r = if prec == 10 { write!(w, "{}", Timestamp::MIN) } else { write!(w, "{:.*}", prec, Timestamp::MIN) };
+    let r = fmt_with_prec(&mut w, prec);
     assert!(r.is_ok() && !w.overflow);
     let eff = if prec >= 9 { 9 } else { prec };
     let want_len = if eff == 0 { 20 } else { 21 + eff };
@@ -243,17 +247,65 @@ pub fn c15_q_ts_fmt_parse_roundtrip() {
     let back = Timestamp::try_from_str(w.as_str());
     assert!(back.is_ok(), "the parser accepts the formatter's own output");
     let got = unsafe { REC_PARTS }.unwrap();
-    let scale = pow10(9 - eff as u32);
     assert!(got.years == p.years && got.months == p.months && got.days == p.days);
     assert!(got.hours == p.hours && got.minutes == p.minutes && got.seconds == p.seconds);
-    assert!(got.nanos == p.nanos / scale * scale, "fraction truncated to the precision");
     kani::cover!(prec == 0, "precision 0");
     kani::cover!(prec == 10, "default precision");
-    kani::cover!(prec == 3 && p.nanos % 1_000_000 != 0, "truncating precision");
+    kani::cover!(prec == 3, "precision 3");
+}
+
+/// Sub-second round trip. Bound: the nanosecond value has at most THREE non-zero decimal digits,
+/// at symbolic positions with symbolic values (the remaining digits are zero); every precision.
+/// parse(format(t, p)) carries the fraction truncated to p digits.
+#[kani::proof]
+#[kani::unwind(34)]
+#[kani::stub(emit_core::timestamp::Timestamp::from_parts, rec_from_parts)]
+#[kani::stub(emit_core::timestamp::Timestamp::to_parts, stub_to_parts)]
+#[kani::stub(core::str::from_utf8, ascii_from_utf8)]
+pub fn c15_q_ts_fmt_nanos_roundtrip() {
+    const P10: [u32; 9] = [100_000_000, 10_000_000, 1_000_000, 100_000, 10_000, 1_000, 100, 10, 1];
+    let mut dg = [0u8; 9];
+    let k1: usize = kani::any();
+    let k2: usize = kani::any();
+    let k3: usize = kani::any();
+    kani::assume(k1 < 9 && k2 < 9 && k3 < 9);
+    let d1: u8 = kani::any();
+    let d2: u8 = kani::any();
+    let d3: u8 = kani::any();
+    kani::assume(d1 <= 9 && d2 <= 9 && d3 <= 9);
+    dg[k1] = d1;
+    dg[k2] = d2;
+    dg[k3] = d3;
+    let mut nanos = 0u32;
+    let mut i = 0;
+    while i < 9 { nanos += dg[i] as u32 * P10[i]; i += 1; }
+    let p = Parts { years: 2024, months: 2, days: 29, hours: 23, minutes: 59, seconds: 59, nanos };
+    unsafe { STUB_PARTS = p; REC_ACCEPT = true; REC_CALLS = 0; REC_PARTS = None; }
+    let prec: usize = kani::any();
+    kani::assume(prec <= 10);
+    let mut w = Buf::<40>::new();
+    let r = fmt_with_prec(&mut w, prec);
+    assert!(r.is_ok());
+    let eff = if prec >= 9 { 9 } else { prec };
+    // the text shows exactly the leading `eff` digits
+    let mut i = 0;
+    while i < 9 {
+        if i < eff { assert!(w.b[20 + i] == b'0' + dg[i], "fraction digit"); }
+        i += 1;
+    }
+    let back = Timestamp::try_from_str(w.as_str());
+    assert!(back.is_ok());
+    let got = unsafe { REC_PARTS }.unwrap();
+    let mut want = 0u32;
+    let mut i = 0;
+    while i < 9 { if i < eff { want += dg[i] as u32 * P10[i]; } i += 1; }
+    assert!(got.nanos == want, "fraction truncated to the precision");
+    kani::cover!(prec == 3 && nanos % 1_000_000 != 0, "truncating precision");
+    kani::cover!(prec == 10 && nanos == 900_000_009, "both ends");
 }
 
 /// Fixed-width digits: text order = parts order (with E2's monotonicity of to_parts this is
-/// "formatted timestamps order as instants do").
+/// "formatted timestamps order as instants do"). Bound: nanos restricted as above (<= 2 digits).
 #[kani::stub(emit_core::timestamp::Timestamp::to_parts, stub_to_parts)]
 #[kani::stub(core::str::from_utf8, ascii_from_utf8)]
 #[kani::proof]
@@ -266,9 +318,29 @@ fn key(p: &Parts) -> (u16, u8, u8, u8, u8, u8, u32) {
     (p.years, p.months, p.days, p.hours, p.minutes, p.seconds, p.nanos)
 }
 
+fn sparse_nanos() -> u32 {
+    const P10: [u32; 9] = [100_000_000, 10_000_000, 1_000_000, 100_000, 10_000, 1_000, 100, 10, 1];
+    let k1: usize = kani::any();
+    let k2: usize = kani::any();
+    kani::assume(k1 < 9 && k2 < 9 && k1 != k2);
+    let d1: u8 = kani::any();
+    let d2: u8 = kani::any();
+    kani::assume(d1 <= 9 && d2 <= 9);
+    let mut nanos = 0u32;
+    let mut i = 0;
+    while i < 9 {
+        if i == k1 { nanos += d1 as u32 * P10[i]; }
+        if i == k2 { nanos += d2 as u32 * P10[i]; }
+        i += 1;
+    }
+    nanos
+}
+
 fn fmt_order_body() {
-    let p1 = sym_parts();
-    let p2 = sym_parts();
+    let mut p1 = sym_parts();
+    let mut p2 = sym_parts();
+    p1.nanos = sparse_nanos();
+    p2.nanos = sparse_nanos();
     let mut w1 = Buf::<32>::new();
     let mut w2 = Buf::<32>::new();
     unsafe { STUB_PARTS = p1; }
